@@ -20,18 +20,20 @@ CMDS = ["build", "test", "lint"]
 def intern(table, key):
     return table.setdefault(key, len(table) + 1)
 
-def history(ctx, rng, M, n_runs):
-    kinds = {("lint", "tools"): "undef", ("test", "tools"): "noexec"}
+WIDE = {"targets": [{"path": "w/t%03d" % i} for i in range(330)]}     # one run over all of them stores a result record of ~17 KB (compressed)
+
+def history(ctx, rng, M, n_runs, CFG=CFG, CMDS=CMDS, wide=False):
+    kinds = {} if wide else {("lint", "tools"): "undef", ("test", "tools"): "noexec"}
     rr = runscen.RunRepo(ctx, CFG, kinds=kinds, M=M, commands=CMDS)
     ids = {}
     recs = []
     run_nos = []
     try:
         for n in range(1, n_runs + 1):
-            cmds = rng.sample(CMDS, rng.randint(1, 3))
+            cmds = rng.sample(CMDS, rng.randint(1, len(CMDS)))
             args = ["-c"] + cmds
             targets = None
-            if rng.random() < 0.5:
+            if rng.random() < (0.34 if wide else 0.5):
                 targets = rng.sample([t["path"] for t in CFG["targets"]], rng.randint(1, 3))
                 args += ["-t"] + targets
                 if rng.random() < 0.5: args.append("--deps")
@@ -42,7 +44,7 @@ def history(ctx, rng, M, n_runs):
             if rng.random() < 0.2:
                 # an invocation that dies after producing logs but before storing its result (it is not one of the
                 # completed runs r1..rk; whatever it left in the slot must be gone after the next completed run)
-                other = ["-c"] + rng.sample(CMDS, rng.randint(1, 3))
+                other = ["-c"] + rng.sample(CMDS, rng.randint(1, len(CMDS)))
                 rr.run(*other, env={"MONORAIL_VERIF_POINTS": "run_before_store_result=abort:1"})
                 ctx.count("aborted_invocation")
             overlapped = None
@@ -80,7 +82,7 @@ def history(ctx, rng, M, n_runs):
                     overlapped = {"intruder_rc": pb.returncode}; ctx.count("overlapping_invocation")
             else:
                 rc, out, err, raw = rr.run(*args)
-            case = {"M": M, "step": n, "args": args, "script": rr.script}
+            case = {"M": M, "step": n, "args": args, "script": rr.script, "wide": wide}
             if out is None:
                 ctx.record(case, True, False, False, False, detail={"what": "run produced no result document", "rc": rc, "err": err})
                 return
@@ -132,6 +134,7 @@ def history(ctx, rng, M, n_runs):
             ok = ok_show and ok_slot and ok_logs and not extra_dirs and spec
             nontriv = n > M or bool(out.get("failed"))
             ctx.count("M_%d" % M); ctx.count("failed_run" if out.get("failed") else "ok_run"); ctx.count("explicit_targets" if targets else "all_targets")
+            ctx.count("result_entries_" + ("gt150" if sum(len(g) for _, gs in runscen.result_statuses(out) for g in gs) > 150 else "le150"))
             ctx.record(case, True, agree, ok, nontriv,
                        sample={"M": M, "step": n, "args": args, "pointer": ptr, "slot_dirs": sorted(str(k) for k in slots)} if nontriv else None,
                        detail={"ok_show": ok_show, "ok_slot": ok_slot, "leftovers": leftovers, "foreign": foreign, "ok_logs": ok_logs, "why": why,
@@ -145,9 +148,13 @@ def run(ctx, scale):
     plan = [(2, 8), (1, 4), (3, 11), (10, 13)] if ctx.quick() else [(m, 3 * m + 2) for m in (1, 2, 3, 5)] * 8 + [(10, 23), (11, 25), (12, 14)] * 2
     for (M, n) in plan * scale:
         history(ctx, random.Random(rng.getrandbits(32)), M, n)
+    # a configuration with hundreds of targets: the stored result record is far larger than any I/O buffer
+    for (M, n) in ([(2, 4)] if ctx.quick() else [(2, 6), (3, 8)]) * scale:
+        history(ctx, random.Random(rng.getrandbits(32)), M, n, CFG=WIDE, CMDS=["build", "test"], wide=True)
 
 def replay(ctx, case):
     import random
     c = case.get("case", case)
-    history(ctx, random.Random(ctx.seed), c.get("M", 2), c.get("step", 6) + 1)
+    if c.get("wide"): history(ctx, random.Random(ctx.seed), c.get("M", 2), c.get("step", 3) + 1, CFG=WIDE, CMDS=["build", "test"], wide=True)
+    else: history(ctx, random.Random(ctx.seed), c.get("M", 2), c.get("step", 6) + 1)
     return {"spec_failures": [d for _, d in ctx.spec_failures][:3], "disagreements": [d for _, d in ctx.tie_breaks][:3]}
